@@ -273,10 +273,16 @@ func compare(cs *Case, m *model, obs observed) (ps []problem) {
 		}
 		dir := f[:strings.Index(f, "/templates/")]
 		if n, ok := byPath[dir]; ok {
-			ps = append(ps, problem{"enable", n.dotted(), "rendered-though-disabled/" + m.reason[firstOff(m, n)],
+			ps = append(ps, problem{"enable", n.dotted(), "rendered-though-disabled/" + m.reason[firstOff(m, n)] + repeatedQual(m, firstOff(m, n)),
 				fmt.Sprintf("template %s was rendered but dependency %s is disabled (%s)", f, firstOff(m, n).dotted(), m.reason[firstOff(m, n)])})
 		} else {
-			ps = append(ps, problem{"alias", dir, "unexpected-path", fmt.Sprintf("template %s was rendered under a path no dependency goes by", f)})
+			q := ""
+			if i := strings.LastIndex(dir, "/charts/"); i > 0 {
+				if par, ok := byPath[dir[:i]]; ok && usesOf(m, par.def) > 1 {
+					q = "/under-repeated-chart"
+				}
+			}
+			ps = append(ps, problem{"alias", dir, "unexpected-path" + q, fmt.Sprintf("template %s was rendered under a path no dependency goes by", f)})
 		}
 	}
 	for f, n := range wantFiles {
@@ -284,7 +290,7 @@ func compare(cs *Case, m *model, obs observed) (ps []problem) {
 			if n.parent != nil && !got[n.parent.fullPath()+"/templates/probe.yaml"] {
 				continue // follows from the missing parent
 			}
-			ps = append(ps, problem{"enable", n.dotted(), "missing-though-enabled/" + reasonOf(m, n),
+			ps = append(ps, problem{"enable", n.dotted(), "missing-though-enabled/" + reasonOf(m, n) + repeatedQual(m, n),
 				fmt.Sprintf("template %s is missing but %s is enabled (%s)", f, n.dotted(), reasonOf(m, n))})
 		}
 	}
@@ -323,6 +329,29 @@ func compare(cs *Case, m *model, obs observed) (ps []problem) {
 		}
 	}
 	return ps
+}
+
+// usesOf counts the places a chart definition is used in the tree.
+func usesOf(m *model, d *ChartDef) int {
+	k := 0
+	for _, n := range m.insts {
+		if n.def == d {
+			k++
+		}
+	}
+	return k
+}
+
+// repeatedQual marks failures about a dependency of a chart that is itself
+// used more than once in the tree (the uses share what Helm copies shallowly).
+func repeatedQual(m *model, n *inst) string {
+	if n.parent == nil || usesOf(m, n.parent.def) < 2 {
+		return ""
+	}
+	if n.dep != nil && n.dep.Alias != "" {
+		return "/aliased-under-repeated-chart"
+	}
+	return "/under-repeated-chart"
 }
 
 func js(v any) string { b, _ := json.Marshal(v); return string(b) }
